@@ -447,6 +447,38 @@ Definition xfr_run (req : bool) (z : zone) (rdt : Z) (ser : option Z) (udp : boo
 Definition inbound_xfr (z : zone) (rdt : Z) (ser : option Z) (udp : bool) (ws : list wmsg) : result * nat :=
   xfr_run false z rdt ser udp ws.
 
+(* ---- the older API: dns.zone.from_xfr(dns.query.xfr(...)), AXFR.  dns.query.xfr runs _inbound_xfr on a
+   transaction manager whose transactions do nothing and yields every message it has processed;
+   dns.zone.from_xfr adds every RRset of every yielded message (out-of-zone ones too, the SOA twice) to a
+   fresh zone - node.find_rdataset(create=True) (a new rdataset goes through _append_rdataset),
+   update_ttl (minimum), Rdataset.add for every rdata - and ends with check_origin (NoSOA / NoNS).
+   The validation part is the real state machine on the empty zone: the same as the do-nothing
+   transactions as long as no transaction operation would fail (records of the zone's class, no SOA below
+   the apex, no RRset without rdata). ---- *)
+Definition eNoSOA : Z := 60.
+Definition eNoNS : Z := 61.
+
+Definition fx_add (z : zone) (s : rrset) : zone :=
+  let k := skey s in
+  match look z k with
+  | Some (t, ds) =>
+      zput k ((if s_ttl s <? t then s_ttl s else t), fold_left (fun acc x => rds_add (s_type s) x acc) (s_data s) ds) z
+  | None => node_put k (s_ttl s, fold_left (fun acc x => rds_add (s_type s) x acc) (s_data s) []) z
+  end.
+
+Definition from_xfr (ws : list wmsg) : res zone :=
+  let z := fold_left fx_add (flat_map (fun w => group false (w_records w)) ws) [] in
+  match look z (origin, tSOA, 0) with
+  | None => Lib eNoSOA
+  | Some _ => match look z (origin, 2, 0) with None => Lib eNoNS | Some _ => Ok z end
+  end.
+
+Definition legacy_axfr (ws : list wmsg) : res zone :=
+  match inbound_xfr [] tAXFR None false ws with
+  | (Done _, n) => from_xfr (firstn n ws)
+  | (Error e _, _) => Lib e
+  end.
+
 (* feeding already parsed messages to process_message one after the other (the public API used
    without the driver): per-message results (0 = returned False, rTrue = returned True, otherwise the
    error code), stop at the first exception, then __exit__ *)
@@ -839,6 +871,18 @@ Definition run (c : obs) : obs :=
           | Internal e => L [I e; obs_of_zone z]
           end
       | _, _, _, _ => E eBadCase
+      end
+  (* 9: dns.zone.from_xfr(dns.query.xfr(...)) on an AXFR response.  [9; relativize; messages; expected zone];
+        owner names are reported + 10 (out-of-zone names are negative) *)
+  | L (I 9 :: I _ :: L ws :: _) =>
+      match wmsgs_of_obs ws with
+      | Some ws =>
+          match legacy_axfr ws with
+          | Ok z => obs_of_zone (map (fun ke => let '((n, t, c), e) := ke in ((n + 10, t, c), e)) z)
+          | Lib e => E e
+          | Internal e => E e
+          end
+      | None => E eBadCase
       end
   | _ => E eBadCase
   end.
